@@ -74,8 +74,11 @@ CHECKS = {
             dict(harness="C05_T0", cover=["accepted"], bounds="52 concrete templates x symbolic Config (5 x 64-bit Style, Case, Width 0..8)"),
             dict(harness="C05_F2", cover=["accepted"], bounds="accepted inputs among all 2-rune strings over D x symbolic Config"),
             dict(harness="C05_F3", cover=["accepted", "lone-backslash"], bounds="accepted inputs among all 3-rune strings over D x symbolic Config"),
+            dict(harness="C05_G12", cover=["accepted"], bounds="generated derivations of depth 1 with at most 2 non-default productions (C02's generator, single- and multi-line) x symbolic Config"),
         ],
         "thorough": [
+            dict(harness="C05_G12", cover=["accepted"]),
+            dict(harness="C05_G2", cover=["accepted"], bounds="generated derivations of depth 2 with at most 2 non-default productions x symbolic Config", timeout="40m"),
             dict(harness="C05_T0", cover=["accepted"]),
             dict(harness="C05_F2", cover=["accepted"]),
             dict(harness="C05_F3", cover=["accepted", "lone-backslash"]),
@@ -88,8 +91,10 @@ CHECKS = {
             dict(harness="C18_T0", cover=["accepted", "write-fault"], bounds="52 concrete templates x symbolic Config x writer failing after k bytes (k symbolic)"),
             dict(harness="C18_F2", cover=["accepted", "write-fault"], bounds="accepted 2-rune inputs x symbolic Config x symbolic write-fault offset"),
             dict(harness="C18_F3", cover=["accepted", "write-fault"], bounds="accepted 3-rune inputs x symbolic Config x symbolic write-fault offset"),
+            dict(harness="C18_G1", cover=["accepted", "write-fault"], bounds="generated derivations of depth 1 with at most 1 non-default production x symbolic Config x symbolic write-fault offset"),
         ],
         "thorough": [
+            dict(harness="C18_G12", cover=["accepted", "write-fault"], bounds="generated derivations of depth 1, at most 2 non-default productions"),
             dict(harness="C18_T0", cover=["accepted", "write-fault"]),
             dict(harness="C18_F2", cover=["accepted", "write-fault"]),
             dict(harness="C18_F3", cover=["accepted", "write-fault"]),
